@@ -111,3 +111,12 @@ Theorem bitv_print_file : forall c a,
   fst (bitvPrint c a) = bitvToString c a /\ snd (bitvPrint c a) = length (bitvToString c a).
 Proof. exact print_is_toString. Qed.
 Print Assumptions bitv_print_file.
+
+(* cardinalities across the algebra (inclusion-exclusion, difference, complement), for any length and any
+   content of the unused bits *)
+Theorem bitv_count_algebra : forall c a b, wfc c ->
+  (bitvCount c (bitvOr c a b) + bitvCount c (bitvAnd c a b) = bitvCount c a + bitvCount c b)%nat /\
+  (bitvCount c (bitvMinus c a b) + bitvCount c (bitvAnd c a b) = bitvCount c a)%nat /\
+  (bitvCount c (bitvNot c a) + bitvCount c a = nbits c)%nat.
+Proof. exact count_algebra. Qed.
+Print Assumptions bitv_count_algebra.
